@@ -17,6 +17,23 @@ CLAIMS = {
          "Bounds as coded in harness/.../generator/swagen/zz_verif_c01.go. Gate assumption: routes whose templates differ only in parameter names are excluded (kin-openapi validation rejects them: 'conflicting paths', so no document is emitted). "
          "Outside: discovery of controllers/methods in source (go/ast, go/types), JSON encoding of the in-memory document.",
          "DESIGN.md 4 (C01)"),
+ "C02": ("Generated routers (real templates, rendered by the CLI built from /repo for a fixture project, all five engines): (kernel, symbolic) for every route text of up to 2 segments (literal or {param}) with up to three leading slashes, doubled inner slashes and a trailing slash, "
+         "the generated toGinUrl/toEchoUrl/toMuxUrl/toChiUrl/toFiberUrl register exactly the path the spec documents (every slash run collapsed, leading slash; ':x' <-> '{x}'); (corpus) the registration table of each engine is in bijection with the fixture's 7 annotated methods (hidden one included) at the documented verb and path, "
+         "and a valid request to each reaches that method of that controller and no other.",
+         "Bounds as coded in harness-g/verifgen/cross/zz_verif_c02.go, zz_verif_routes.go. The project dimension is a fixed fixture (fixtures/stageg/project): Handlebars rendering cannot be executed symbolically. The generated code runs against stand-in framework packages (fixtures/stageg/stubs) that implement the documented behaviour of the accessors the templates call; the frameworks' own request matching is outside.",
+         "DESIGN.md 4 (C02, stage G)"),
+ "C03": ("For every engine, every fixture route and every behaviour of the user's authorization callback (approve / refuse / refuse with custom payload per call, symbolic), with a valid or an all-parameters-missing request: the callback is asked exactly the checks of the route's effective alternatives (own, else controller's, else configured default) in order, "
+         "the controller is invoked only after some alternative was approved in full, a refused request never reaches the controller and is answered with the last refusal's status (and custom payload); plus the generated authorize() on arbitrary lists of up to 2 alternatives x 2 checks.",
+         "Bounds as coded in harness-g/verifgen/cross/zz_verif_c03.go. Same fixture/stub caveats as C02. User-supplied template extensions/middlewares are not part of the fixture.",
+         "DESIGN.md 4 (C03, stage G)"),
+ "C05": ("For every engine and 5 fixture routes covering path/query/header/form locations, int/uint/int64/int8/bool/string/[]string/enum/pointer/context parameters: for every symbolic request (presence bits, values of up to 2 (thorough 3) bytes over digits, signs and letters, plus numerals around 2^32 and 2^63) "
+         "the controller receives position by position the value at the declared location converted to the declared type (reference numeral parsers written from the type's range), a missing non-pointer/path parameter or a non-convertible value is answered 422 without invoking the method, missing pointer parameters arrive as nil, context parameters are non-nil.",
+         "Bounds as coded in harness-g/verifgen/cross/zz_verif_c05.go. strconv is interpreted from source. Outside: go-playground validator rules other than `required` (stub), JSON body decoding beyond the cases of C12, percent-decoding and header canonicalisation inside the real frameworks, floats.",
+         "DESIGN.md 4 (C05, stage G)"),
+ "C12": ("For each of the 7 fixture routes, one shared symbolic request (every location absent/empty/malformed/valid), shared callback answers and shared controller outcome (value or error) are run through the five generated handlers inside one path: same controller method with equal arguments (or none), same status, same JSON body as the gin router. "
+         "One recorded finding (fiber treats an empty header value as absent) is reported as KNOWN-FINDING.",
+         "Bounds as coded in harness-g/verifgen/cross/zz_verif_c12.go. Bodies are compared through encoding/json (engine: a type-directed JSON model; natively: the real package). Same fixture/stub caveats as C02.",
+         "DESIGN.md 4 (C12, stage G)"),
  "C04": ("For 0-1 (thorough 0-2) controller-level and 0-2 method-level @Security annotations over 3 declared-or-not scheme names plus an undeclared one, 0-2 symbolic scopes, optional default security: "
          "the real ControllerMeta/ReceiverMeta.Reduce yields method-else-controller-else-default alternatives; both emitters document exactly those alternatives (scheme, scopes, order); every named scheme is declared under components.securitySchemes as configured; "
          "an undeclared scheme makes both GenerateControllersSpec fail with no operation; validateSecurity rejects iff enforceSecurityOnAllRoutes and the route has no effective security.",
